@@ -345,3 +345,64 @@ def check_async_twins(ctx, F):
     # the instance population are the tests naming the sync class (with its twin); at least the module-level families must exist
     fam = [n_ for n_ in ('ASTS_LEAF_WITH', 'ASTS_LEAF_FOR', 'ASTS_LEAF_FUNCDEF') if any(n_ in m.src for m in ctx.repo.modules.values() if hasattr(m, 'src'))]
     ctx.extra['async_twin_tests'] = n
+
+
+def check_code_forms(ctx):
+    """R3.8 — `Code` is `str | list[str] | AST | FST`: source text comes as one string or as a list of lines, and both are the same request.
+    A decision that singles out `isinstance(code, str)` must handle `list` in the same decision (same boolean expression, or another arm of
+    the same if / elif chain); `isinstance(code, (str, list))` is the combined form."""
+    from ..struct import parent_map
+    ctx.rule('R3.8', 'a type test that recognises source text given as `str` recognises it given as a list of lines too', 15)
+    n = 0
+
+    def is_test(x, types):
+        if not (isinstance(x, ast.Call) and call_name(x) == 'isinstance' and len(x.args) == 2 and isinstance(x.args[0], ast.Name)):
+            return None
+        t = x.args[1]
+        names = {t.id} if isinstance(t, ast.Name) else {e.id for e in t.elts if isinstance(e, ast.Name)} if isinstance(t, ast.Tuple) else set()
+        return x.args[0].id if names == types else None
+
+    for fi in ctx.repo.all_funcs():
+        if isinstance(fi.node, ast.Lambda) or 'code' not in fi.params():
+            continue
+        par = None
+        for x in walk_no_nested(fi.node):
+            v = is_test(x, {'str'})
+            if v != 'code':
+                if is_test(x, {'str', 'list'}) == 'code':
+                    n += 1
+                    ctx.ok('R3.8', f'{fi.module}|{fi.qualname}|{norm(x)}@{n}')
+                continue
+            n += 1
+            par = par or parent_map(fi.node)
+            ok = False
+            # same boolean expression
+            cur = x
+            while cur in par and isinstance(par[cur], (ast.BoolOp, ast.NamedExpr, ast.UnaryOp)):
+                cur = par[cur]
+            if any(is_test(y, {'list'}) == 'code' for y in ast.walk(cur)):
+                ok = True
+            # another arm of the same if / elif chain (walk up to the chain head, then down all arms)
+            st = cur
+            while st in par and not isinstance(st, ast.If):
+                st = par[st]
+            if isinstance(st, ast.If):
+                head = st
+                while head in par and isinstance(par[head], ast.If) and par[head].orelse == [head]:
+                    head = par[head]
+                arm = head
+                while isinstance(arm, ast.If):
+                    if any(is_test(y, {'list'}) == 'code' or is_test(y, {'str', 'list'}) == 'code' for y in ast.walk(arm.test)):
+                        ok = True
+                    arm = arm.orelse[0] if len(arm.orelse) == 1 and isinstance(arm.orelse[0], ast.If) else None
+            # normalising arm: `if isinstance(code, str): code = code.split('\n')` -- the list form is what follows anyway
+            if not ok and isinstance(st, ast.If) and any(y is x for y in ast.walk(st.test)) and len(st.body) == 1 and \
+                    isinstance(st.body[0], ast.Assign) and norm(st.body[0].targets[0]) == 'code' and isinstance(st.body[0].value, ast.Call) and \
+                    call_name(st.body[0].value) == 'split':
+                ok = True
+            ctx.check('R3.8', ok, fi.module, fi.qualname, norm(cur, 80),
+                      'source given as one string is recognised here, the same source given as a list of lines is not (and falls into the node / '
+                      'other-type path): the two forms of one request are treated differently', x.lineno,
+                      sample={'function': fi.key, 'test': norm(cur, 80)})
+    if n < 15:
+        raise AnalysisError(f'only {n} code-form tests found')
